@@ -334,7 +334,7 @@ def obj_class(path, root, pre, post):
     return "%s-%s" % (side, rec["k"] if rec else "new")
 
 
-def judge(case, root, pre, post, run, res, prop_tag="", tolerated=None):
+def judge(case, root, pre, post, run, res, prop_tag="", tolerated=None, tolerated_paths=()):
     """Shared exit-0 oracle (also used by C07's fault family)."""
     v = case.get("variant")
     if v == 7:
@@ -366,7 +366,9 @@ def judge(case, root, pre, post, run, res, prop_tag="", tolerated=None):
     bad += [("excluded-entry-copied", "%s is excluded by src/.gitignore but exists in the destination" % m["dst"]) for m in excluded if m["dst"] in post]
     # a failed xattr call may cost xattrs (of that file: which one is not tracked, so xattrs are then not compared at all);
     # permissions, timestamps and contents are demanded regardless
-    bad += model.check_meta(pre, post, mapping, xattrs=tolerated not in ("flistxattr", "fgetxattr", "fsetxattr"))
+    # (a failed attribute call excuses the attributes of the file it was made on, not those of the files copied after it)
+    exempt = tuple(tolerated_paths) if tolerated in ("flistxattr", "fgetxattr", "fsetxattr") else ()
+    bad += model.check_meta(pre, post, mapping, xattrs=not (tolerated in ("flistxattr", "fgetxattr", "fsetxattr") and not exempt), xattr_exempt=exempt)
     bad += [f for f in model.check_nodes(pre, post, mapping) if f[0] == "rdev" and False]
     # numbered / auto backups: the old content must still exist
     if "--backup" in case["args"]:
@@ -455,7 +457,8 @@ def run_case(case):
             res["counters"]["exit0-after-fault"] = 1
             # (with two faults, either of them may be a call whose failure the statement tolerates)
             tol = [case["faults"][i]["site"]["sys"] for i in applied if case["faults"][i]["site"]["sys"] in sites.TOLERATED]
-            bad = judge(case, root, pre, post, run, res, tolerated=(tol[0] if s0["sys"] not in sites.TOLERATED else s0["sys"]) if tol else None)
+            tpaths = [case["faults"][i]["site"]["path"].replace("@ROOT@", "").lstrip("/") for i in applied if case["faults"][i]["site"]["sys"] in sites.TOLERATED]
+            bad = judge(case, root, pre, post, run, res, tolerated=(tol[0] if s0["sys"] not in sites.TOLERATED else s0["sys"]) if tol else None, tolerated_paths=tpaths)
             if s0["sys"] in sites.TOLERATED:
                 res["counters"]["tolerated-call-failed-exit0"] = 1
             if s0["sys"] in ("fsync", "fdatasync"):
